@@ -43,6 +43,7 @@ def parseEvent (tok : Nat) (f : String) : Option (Option Sys) :=
   | ["x", fd] => do pure (some (.close (← parseNat fd)))
   | ["r", a, b] => do pure (some (.rename (← hexDecode a) (← hexDecode b)))
   | ["u", a] => do pure (some (.unlink (← hexDecode a)))
+  | ["d", _] => some (some .fsyncDir)
   | ["q", _] => some none
   | _ => none
 
@@ -69,6 +70,7 @@ def showEvent : Sys → String
   | .close fd => s!"x:{fd}"
   | .rename a b => s!"r:{hexEncode a}:{hexEncode b}"
   | .unlink a => s!"u:{hexEncode a}"
+  | .fsyncDir => "d:-"
 
 def showEvents (es : List Sys) : String :=
   "\t".intercalate (toString es.length :: es.map showEvent)
@@ -226,6 +228,69 @@ def stepSave (st : St) (ins impl : List String) : Option (St × String) := do
     | _ => none
   | _, _ => none
 
+/-- Contents installed at `dest` by the renames of a replayed trace, in order. -/
+def renamedContents (dest : Path) : FS → List Sys → List Content
+  | _, [] => []
+  | s, e :: es =>
+    let here := match e with
+      | .rename a b => if b == dest && a != dest then
+          (match s.names a with | some i => [s.cache i] | none => []) else []
+      | _ => []
+    here ++ renamedContents dest (exec s e) es
+
+/-- Decidable form of `GoodTrace` (descriptors: those the trace mentions). -/
+def goodTraceB (dest : Path) (fdsSeen : List Nat) : FS → List Sys → Bool
+  | _, [] => true
+  | s, e :: es =>
+    let good := e.safeFor dest || (match e with
+      | .rename a b => b == dest && a != dest && (match s.names a with
+          | some i => s.cache i == s.disk i && !s.dirty i &&
+              fdsSeen.all (fun fd => match s.fds fd with | some (j, _) => j != i | none => true)
+          | none => false)
+      | _ => false)
+    good && goodTraceB dest fdsSeen (exec s e) es
+
+/-- Two (or more) saves of the same path at once: the interleaved trace is
+replayed; allowed contents are the old version and whatever complete temporary
+files were renamed into place. -/
+def stepRace (st : St) (ins impl : List String) : Option (St × String) := do
+  match ins, impl with
+  | [_variant, _sizeA, _seedA, _sizeB, _seedB, _probe],
+    nCommitted :: finalOK :: _reads :: badReads :: k :: rest =>
+    let nCommitted ← parseNat nCommitted
+    let finalOK ← parseBool finalOK
+    let badReads ← parseNat badReads
+    let (dirNames, rest) ← takeList (← parseNat k) rest
+    match rest with
+    | n :: evFields =>
+      if evFields.length != (← parseNat n) then none
+      let saveNo := st.saveNo + 1
+      let evs ← parseEvents saveNo 0 evFields
+      let old := visible st.fs st.dest
+      let V := renamedContents st.dest st.fs evs
+      let allowed : List (Option Content) := old :: V.map some
+      let ok : Option Content → Bool := fun c => allowed.contains c
+      let known := st.known ++ paths evs
+      let final := run st.fs evs
+      let fdsSeen := 1000000 :: fdsOf evs
+      let good := goodTraceB st.dest fdsSeen st.fs evs && allAccepted st.fs evs
+      let modelStr := "\t".intercalate [toString V.length, showDir final known, if good then "good" else "bad"]
+      let implStr := "\t".intercalate [toString nCommitted,
+        "\t".intercalate (toString dirNames.length :: dirNames), "good"]
+      let spec : Option String :=
+        match firstBadP ok st.dest st.fs evs with
+        | some w => some (whyName w)
+        | none =>
+          if nCommitted != 0 && !(V.map some).contains (visible final st.dest) then some "C14.final"
+          else if badReads != 0 then some "C14.reader"
+          else if !finalOK then some "C14.content"
+          else none
+      pure ({ st with fs := compact final st.dest (2305843009213693952 + saveNo) known fdsSeen,
+                      known := dedup known, saveNo := saveNo },
+        verdict (modelStr == implStr) spec modelStr)
+    | _ => none
+  | _, _ => none
+
 def errName : Errno → String
   | .eexist => "eexist" | .enoent => "enoent" | .ebadf => "ebadf"
 
@@ -268,6 +333,7 @@ def step' (st : St) (line : String) : St × String :=
         else if !st.ok then none
         else if op == "C14.save" then stepSave st ins impl
         else if op == "C14.fsop" then stepFsop st ins impl
+        else if op == "C14.race" then stepRace st ins impl
         else if op == "C14.put" then
           match ins with
           | p :: _ => (hexDecode p).map fun p =>
